@@ -1,5 +1,7 @@
 package main
 
+import "fmt"
+
 func init() { registry["C09"] = checkC09 }
 
 func checkC09(e *RunEnv) *CheckResult {
@@ -9,7 +11,11 @@ func checkC09(e *RunEnv) *CheckResult {
 		// quick: a smaller edit alphabet (the name sweep below covers the sibling names)
 		paths = []string{"d/x", "d/y", "ad/x", "a(b", "g", "n", "d/s/t/u", "big"}
 	}
-	args := []string{".", "@ROOT@/d/x", "@ROOT@/d", "../root/g", "d/x", "d/y", "ad/x", "d.c", "a(b", "g", "d0", "n", "big", "d", "ad", "d/s", "d/s/t", "nope", "d/nope", "d/", "./d", "d/.", "./g", "d//x"}
+	spellings := []string{".", "@ROOT@/d/x", "@ROOT@/d", "../root/g", "@ROOT@", "d/", "./d", "d/.", "./g", "d//x", "nonexist/../g"}
+	args := []string{"d/x", "d/y", "ad/x", "d.c", "a(b", "g", "d0", "n", "big", "d", "ad", "d/s", "d/s/t", "nope", "d/nope"}
+	if e.Thorough() {
+		args = append(spellings, args...)
+	}
 	pairs := [][]string{{"d/x", "ad/x"}, {"d", "g"}, {"g", "nope"}, {"nope", "g"}, {"g", "n"}, {"d/y", "d"}, {"d/n2", "d"}, {"d/s", "d"}}
 	var base []Step
 	base = append(base, seedS0()...)
@@ -111,6 +117,18 @@ func checkC09(e *RunEnv) *CheckResult {
 				// --staged: staged edits, one staged removal, one staged new file
 				st := append(append([]Step{}, pre...), Run(append([]string{"add"}, topLevel(set)...)...), Run("rm", last), Write("zz new", "n\n"), Run("add", "zz new"), Run("restore", "--staged", arg))
 				cs = append(cs, Case{Base: base, BaseName: "S0", BaseSeed: seedS0(), Steps: st})
+			}
+		}
+		// un-normalised, absolute and dot spellings on three states (see C04)
+		for bi, b := range [][]Step{seed1, seed2} {
+			bs := x.BuildState(b)
+			if bs == nil {
+				continue
+			}
+			for _, sp := range spellings {
+				for _, mode := range [][]string{{"restore"}, {"restore", "--staged"}} {
+					cs = append(cs, Case{Base: bs, BaseName: fmt.Sprintf("spelling-base-%d", bi), BaseSeed: b, Steps: []Step{Run(append(append([]string{}, mode...), sp)...).WithTags("spelling")}})
+				}
 			}
 		}
 		sweep = x.RunCases(cs)
